@@ -68,6 +68,9 @@ pub struct Consumed {
     pub mutated: bool,
 }
 
+/// Safety valve: no scenario legitimately sends that many datagrams.
+pub const STORM_LIMIT: usize = 50_000;
+
 /// What to do with a datagram: a list of `(delay µs, bytes)` deliveries; empty = drop.
 pub type Actions = Vec<(u64, Vec<u8>)>;
 
@@ -198,8 +201,16 @@ impl Net {
         }
     }
 
+    /// `true` once more than [`STORM_LIMIT`] datagrams were sent: everything after is dropped.
+    pub fn storm(&self) -> bool {
+        self.inner.borrow().tap.sent.len() >= STORM_LIMIT
+    }
+
     fn send(&self, src: usize, data: &[u8], addr: Address) {
         let mut g = self.inner.borrow_mut();
+        if g.tap.sent.len() >= STORM_LIMIT {
+            return;
+        }
         let dst = g.nodes.iter().position(|n| n.addr == addr);
         let sent = Sent {
             seq: g.tap.sent.len(),
